@@ -26,8 +26,12 @@ Definition first20 (ncol nrefl : Z) : list Z :=
   let '(hs, real64) := if INT32_MAX <? real then (-1, real) else (real, 0) in
   [77; 84; 90; 32] ++ enc32 hs ++ [68; 65; 0; 0] ++ enc64 real64.   (* machst 0x00004144 on a little-endian host *)
 
-(* read_first_bytes on a little-endian host: returns (same_byte_order, header_offset) *)
-Definition read_first (b : list Z) : option (bool * Z) :=
+(* read_first_bytes on a little-endian host: returns (same_byte_order, header_offset);
+   read_first_raw is the decoding, read_first adds the range test of the repaired reader
+   (header_offset < 21 || header_offset > INT64_MAX / 4 -> fail) *)
+Definition HDR_OFF_MAX : Z := 2305843009213693951.   (* INT64_MAX / 4 *)
+Definition off_ok (off : Z) : bool := (21 <=? off) && (off <=? HDR_OFF_MAX).
+Definition read_first_raw (b : list Z) : option (bool * Z) :=
   if negb (str_eqb (firstn 4 b) [77; 84; 90; 32]) then None else
   let swapped := Z.land (nth 9 b 0) 240 =? 16 in
   let w := firstn 4 (skipn 4 b) in
@@ -36,6 +40,11 @@ Definition read_first (b : list Z) : option (bool * Z) :=
     let q := firstn 8 (skipn 12 b) in
     Some (negb swapped, dec64 (if swapped then rev q else q))
   else Some (negb swapped, tmp).
+Definition read_first (b : list Z) : option (bool * Z) :=
+  match read_first_raw b with
+  | Some (same, off) => if off_ok off then Some (same, off) else None
+  | None => None
+  end.
 
 (* data section *)
 Definition write_data (d : list word) : list Z := flat_map wbytes d.
